@@ -671,83 +671,36 @@ def check_stale_reference(ctx, ci, f):
                     premise.append(f'{m.name}:{dotted(n.func)}')
     ctx.setcount('stack_built_steps', len(premise))
 
-    def kinds_of(test):
-        if isinstance(test, ast.Call) and dotted(test.func) == 'isinstance' and len(test.args) == 2 and norm(test.args[0]) == stepvar:
-            cls_arg = test.args[1]
-            if isinstance(cls_arg, (ast.Name, ast.Attribute)):
-                cname = cls_arg.id if isinstance(cls_arg, ast.Name) else cls_arg.attr
-                for a_ in ast.walk(ctx.src.tree(f)):        # a tuple of classes kept in a module-level / class-level constant
-                    if isinstance(a_, ast.Assign) and len(a_.targets) == 1 and isinstance(a_.targets[0], ast.Name) and a_.targets[0].id == cname \
-                            and isinstance(a_.value, ast.Tuple):
-                        cls_arg = a_.value
-            ts = cls_arg.elts if isinstance(cls_arg, ast.Tuple) else [cls_arg]
-            return {(dotted(t) or '').split('.')[-1] for t in ts}
-        return None
-
-    def cond(test, st, branch):
-        """-> list of states compatible with `test` evaluating to `branch` (exact for and / or / not over the two atoms)"""
-        p, closed_here, kind = st
-        if isinstance(test, ast.BoolOp):
-            is_and = isinstance(test.op, ast.And)
-            first, rest = test.values[0], test.values[1:]
-            rest_test = rest[0] if len(rest) == 1 else ast.BoolOp(op=test.op, values=rest)
-            if is_and == branch:
-                # (A and B) true  /  (A or B) false: both operands have the deciding value
-                out = []
-                for s1 in cond(first, st, branch):
-                    out += cond(rest_test, s1, branch)
-                return out
-            # (A and B) false: A false, or A true and B false;   (A or B) true: A true, or A false and B true
-            out = list(cond(first, st, branch))
-            for s1 in cond(first, st, not branch):
-                out += cond(rest_test, s1, branch)
-            return out
-        if isinstance(test, ast.UnaryOp) and isinstance(test.op, ast.Not):
-            return cond(test.operand, st, not branch)
-        t = norm(test)
-        if t in ('self.partition', 'self.partition is not None'):
-            want = 'open' if branch else 'closed'
-            return [(want, closed_here, kind)] if p in (want, 'maybe-open') else []
-        if t in ('self.partition is None',):
-            want = 'closed' if branch else 'open'
-            return [(want, closed_here, kind)] if p in (want, 'maybe-open') else []
-        ks = kinds_of(test)
-        if ks is not None and ks & {'JoinStep', 'ApplyPredictorStep'}:
-            want = 'partitionable' if branch else 'other'
-            return [(p, closed_here, want)] if kind in (want, 'unknown') else []
-        return [st]
-
-    def transfer(s, st):
-        p, closed_here, kind = st
-        nodes = ast.walk(s) if not isinstance(s, (ast.If, ast.For, ast.While, ast.Try, ast.With)) else []
-        for n in nodes:
-            if isinstance(n, ast.Call):
-                d = norm(n.func)
-                if d == 'self.close_partition':
-                    if p != 'closed':
-                        closed_here = True
-                    p = 'closed'
-                uses_step = any(isinstance(x, ast.Name) and x.id == stepvar for a in list(n.args) + [k.value for k in n.keywords]
-                                for x in ast.walk(a))
-                if uses_step and d in ('self.planner.plan.add_step', 'self.add_step_to_partition', 'MapReduceStep'):
-                    ctx.ob('C09.no-stale-substep-reference', f'add_plan_step:{d}', not (closed_here and kind != 'other'),
-                           f'add_plan_step closes the open partition and then adds a step that may be a JoinStep/ApplyPredictorStep '
-                           f'(`{norm(n)[:60]}`): such steps are built from the top of step_stack before the call, i.e. they hold a '
-                           f'reference to the last SUB-step of the container that was just closed, not to the container',
-                           file=f, line=n.lineno,
-                           witness='... JOIN proj.pred1 p1 JOIN proj.pred2 p2 USING p1.partition_size=10, p2.partition_size=20')
-        if isinstance(s, ast.Assign) and norm(s.targets[0]) == 'self.partition':
-            p = 'closed' if norm(s.value) == 'None' else 'open'
-        return (p, closed_here, kind)
-
-    # path-sensitive: the dataflow value is the SET of reachable (partition, closed_here, kind) triples
-    def transfer_set(s, S):
-        return frozenset(transfer(s, st) for st in S)
-
-    def cond_set(test, S, branch):
-        out = frozenset(x for st in S for x in cond(test, st, branch))
-        return out or None
-    Flow(transfer_set, lambda a, b: a | b, cond_set).run(fn, frozenset([('maybe-open', False, 'unknown')]))
+    # decided by interpretation: add_plan_step (with the real add_step_to_partition / close_partition) on partition open / closed x kind of the step x partition_size
+    from ..interp import Interp, Obj, Raised, Env
+    from ..pymodel import model_for as _mf
+    isa = _mf(ctx.src).isa_table()
+    rows = 0
+    for is_open, kind, psize in itertools.product((False, True), ('JoinStep', 'ApplyPredictorStep', 'FetchDataframeStep', 'SubSelectStep'), (None, 10)):
+        inner = Obj('JoinStep', step_num='1_0', result=Obj('Result'))
+        part = Obj('MapReduceStep', step=[inner], step_num=1, result=Obj('Result'), partition=5, values=Obj('Result'), reduce='union') if is_open else None
+        added = []
+        plan = Obj('QueryPlan', steps=[], add_step=lambda st: (added.append(st), st)[1])
+        step = Obj(kind, dataframe=Obj('Result'), result=Obj('Result'), step_num=None)
+        self_ = Obj(ci.name, partition=part, step_stack=[inner] if is_open else [Obj('FetchDataframeStep', result=Obj('Result'))], planner=Obj('QueryPlanner', plan=plan))
+        stubs = {'self.planner.plan.add_step': lambda it, st: (added.append(st), st)[1], 'Result': lambda it, *a, **k: Obj('Result')}
+        it = Interp.for_file(ctx.src, f, isa, stubs, also=('mindsdb_sql/planner/steps.py',))          # the step classes' own constructors
+        label = f'partition {"open" if is_open else "closed"}, {kind}, partition_size={psize}'
+        try:
+            it.call_function(fn, [self_, step], {'partition_size': psize} if psize is not None else {}, Env())
+        except Raised as r:
+            ctx.ob('C09.no-stale-substep-reference', f'add_plan_step:{label}', r.exc_name in ALLOWED_EXC, f'add_plan_step raises {r.exc_name} [{label}]', file=f, line=fn.lineno)
+            continue
+        rows += 1
+        closed_here = is_open and self_.attrs.get('partition') is not part
+        newp = self_.attrs.get('partition')
+        to_plan = any(x is step for x in added) or (isinstance(newp, Obj) and newp is not part and any(x is step for x in (newp.attrs.get('step') or [])))
+        ctx.ob('C09.no-stale-substep-reference', f'add_plan_step:{label}', not (closed_here and to_plan and kind in ('JoinStep', 'ApplyPredictorStep')),
+               f'add_plan_step closes the open partition and then adds the {kind} to the plan / to a new partition [{label}]: such steps are built from the top of step_stack before the '
+               f'call, i.e. they hold a reference to the last SUB-step of the container that was just closed, not to the container', file=f, line=fn.lineno,
+               witness='... JOIN proj.pred1 p1 JOIN proj.pred2 p2 USING p1.partition_size=10, p2.partition_size=20')
+    ctx.setcount('add_plan_step_rows', rows)
+    ctx.floor('add_plan_step_rows', 12)
 
 
 def transfer_quiet(s, st, closing):
